@@ -365,6 +365,8 @@ def translate(repo):
     L.append("def sockRArrayCount (len size : Nat) : Nat := %s" % n)
     if not re.search(r"String\s+readString\(int\s+n\)\s*\{\s*if\s*\(n\s*<\s*0\)\s*n\s*=\s*0;\s*String\s+s\(n,\s*0\);\s*n\s*=\s*read\(&s\[0\],\s*n\);\s*if\s*\(n\s*>=\s*0\)\s*s\[n\]\s*=\s*'\\0';\s*return\s+s\.fix\(\);\s*\}", sk):
         raise TranslateError("Socket::readString: body not recognised (negative length must be treated as 0)")
+    if not re.search(r"int\s+Socket_::read\(void\*\s*data,\s*int\s+size\)\s*\{\s*if\s*\(size\s*<=\s*0\)\s*return\s+0;", scpp):
+        raise TranslateError("Socket_::read: a read of no bytes must return 0 without calling read() (it marked the socket as failed)")
     ds = re.findall(r"_endian\s*=\s*(ENDIAN_\w+);", scpp)
     if len(ds) < 2 or len(set(ds)) != 1 or ds[0] not in ENDIANS:
         raise TranslateError("Socket_ constructors: default byte order not uniform: %r" % ds)
@@ -523,6 +525,16 @@ def roundtrip_case(rng, kind, nitems, arr_max=100, p_switch=0.2):
             n = len(s.split(b"\0")[0]) if op == "wz" else len(s)
             rl.append("rb %d" % n)
             total += n
+    if kind == "sock":
+        # the object's own view after zero-length and ordinary reads
+        out = []
+        for l in rl:
+            out.append(l)
+            if (l.startswith(("ra ", "rb ", "skip ")) and l.split()[-1] == "0") or l == "rs" or rng.random() < 0.03:
+                out.append("state")
+        rl = out
+        if rng.random() < 0.3:
+            wl.append("state")
     rl.append("r u8")      # nothing may be left
     rl.append("rb 7")
     return wl + rl
@@ -625,6 +637,12 @@ def special_grid(rng):
             c += ["wself", "wselfpart %d %d" % (rng.randrange(0, 2 * n0 + 1), rng.randrange(0, 2 * n0 + 1)), "wself",
                   "w i32 01020304", "wself"]
             cases.append(c + ["reader " + o, "rb %d" % (8 * n0 + 8), "rb 100000", "r u8"])
+    for o in ["def"] + ORDERS:
+        # zero-length socket reads of every kind between two values (hunt D5): the socket must stay healthy
+        for ty in TYPES:
+            c = ["new sock " + o, "w i32 00000007", "wa %s -" % ty, "wb -", "ws -", "was", "state", "w u32 00000000", "w i32 00000008",
+                 "reader " + o, "r i32", "state", "ra %s 0" % ty, "state", "rb 0", "skip 0", "state", "rs", "state", "r i32", "state", "r u8"]
+            cases.append(c)
     for kind in ("file", "sock"):
         for o in ORDERS:
             for pre in (0, 1, 3, 5, 0x7fffffff, 0x80000000, 0xffffffff, 0xfffffffe, 0x01000000, 0x00000100):
@@ -702,7 +720,7 @@ def distribution(cases):
          "writes_by_order_in_force": {}, "reads_by_order_in_force": {}, "order_switches_mid_stream": 0, "nan_values": 0,
          "min_max_int_values": 0, "values_per_case_hist": {}, "max_values_in_a_case": 0,
          "array_variable_writes": {}, "array_rewrites_same_object": 0, "array_rewrites_after_order_switch": 0,
-         "string_array_writes_by_order": {}, "self_writes": 0, "array_reads_by_order_in_force": {}}
+         "string_array_writes_by_order": {}, "self_writes": 0, "socket_state_observations": 0, "zero_length_socket_reads": 0, "array_reads_by_order_in_force": {}}
     for c in cases:
         kind = None
         we = re_ = None
@@ -752,6 +770,12 @@ def distribution(cases):
             elif op in ("wself", "wselfpart"):
                 nvals += 1
                 d["self_writes"] += 1
+            elif op == "state":
+                d["socket_state_observations"] += 1
+            elif op in ("ra", "rb", "skip") and t[-1] == "0" and kind == "sock":
+                d["zero_length_socket_reads"] += 1
+                if op == "ra":
+                    d["array_reads_by_order_in_force"][re_] = d["array_reads_by_order_in_force"].get(re_, 0) + 1
             elif op == "ra":
                 d["array_reads_by_order_in_force"][re_] = d["array_reads_by_order_in_force"].get(re_, 0) + 1
             elif op == "av":
@@ -818,6 +842,10 @@ def _reference(line):
                 return "closed"
             s["we"] = t[1]
             return "ok"
+        if op == "state":
+            if s["kind"] != "sock":
+                return "na"
+            return "ok error=0" + (" available=%d" % len(s["rest"]) if s["reading"] else "")
         if op == "av":
             s["vars"][int(t[1]) % 4] = (t[2], unhex(t[3]))
             return "ok"
@@ -1031,6 +1059,8 @@ LEVEL_NOTE = ("Trusted: Lean kernel, the regex translator + compiler probe, the 
               "skip/read(n), Socket >> String truncation at NUL. Reads past the end and File/Socket >> bool of a byte other than 0/1 are outside the property "
               "(guarded in the protocol). Fixed defects kept as corpus witnesses: 264bf86 (Array<T> in native order wrote length() bytes), fbcbf17 (a StreamBuffer written into itself read freed "
               "storage), 8a61870 (Array<String> in native order wrote String object memory), e37681a (>> String trusted its length: out-of-bounds write), cdda882 "
-              "(>> Array<T> read raw bytes over the Array object). Known finding string-read-not-inverse: >> String expects an int32 length that << String does not write "
+              "(>> Array<T> read raw bytes over the Array object), 8331f50 (a zero-length Socket read marked the socket as failed). The stream object's own "
+              "view (Socket error(), available() = unread bytes) has no theorem: the model has no failure state for reads of bytes that are there; the harness "
+              "checks error() after every socket operation and the `state` op compares available() with the model's unread byte count (K only). Known finding string-read-not-inverse: >> String expects an int32 length that << String does not write "
               "(library format decision; probe `rsame`, printed as KNOWN-FINDING; exactly that expectation is excluded from the generator, `rs` on arbitrary bytes is generated). "
               "A write of the buffer's own bytes (wself) is modelled as a ByteArray write whose value is the current content.")
